@@ -11,7 +11,8 @@
    c06_fixnew = false : the code as it is in the tree   (receive tracker is NOT advanced over zero-size
                         indices before the first data receive is posted)
    c06_fixnew = true  : the code after fixes/C06-1.patch (skipZeroIndices() before the first post). *)
-From Coq Require Import List Arith Bool PeanoNat.
+From Coq Require Import List Arith Bool PeanoNat NArith.
+From DuneV Require Import Params_gen.
 Import ListNotations.
 
 Definition c06_msg := list nat.
@@ -381,3 +382,14 @@ Definition c06_init (variable backward fixnew : bool) (buf ni w np : nat) (sizes
 
 Definition c06_case_fuel (c : c06_cfg) : nat :=
   fold_right (fun l acc => 8 * (2 * (length (s_left (l_s l)) + length (s_next (l_s l))) + 6) + acc) (2 * length (c_phase c) + 8) (c_links c).
+
+(* ------------------------------------------------------------------ the constructors *)
+(* maxBufferSize_ as set by the constructor used: explicit max_buffer_size argument (constructors from
+   (MPI_Comm, map, size) and (Interface, size)), else the macro DUNE_PARALLEL_MAX_COMMUNICATION_BUFFER_SIZE if the
+   translation unit defines it, else the literal default re-read from the source.  Copy construction and copy
+   assignment copy maxBufferSize_ and the interface pointer and duplicate the communicator: same configuration. *)
+Definition c06_ctor_buf (explicit macro : option nat) : nat :=
+  match explicit with
+  | Some b => b
+  | None => match macro with Some m => m | None => N.to_nat c06_param_default_buffer end
+  end.
